@@ -1,6 +1,7 @@
 import SigHook.Lemmas.HalfLock
 import SigHook.Lemmas.RegistryConcPlan
 import SigHook.Gen.Orderings
+import SigHook.Model.Skel
 /-!
 # C01 — Removing an action is quiescent: never runs again, freed outside any handler
 
@@ -222,5 +223,13 @@ theorem C01_registry_runs_pinned {env : Env} {ye : Nat} {disp : List (Int × Dis
   rw [hpc] at this; simp only [PlanT] at this
   obtain ⟨p, d, h1, h2, pre, h3⟩ := this
   exact ⟨p, d, pre, h1, hold_live hI.emb.hd h1, h2, h3⟩
+
+/-- **C01.action_owns_what_it_uses** — tie to the source (regenerated): the iterator's action stores into its
+slot and wakes the self-pipe through references it *owns* (nothing is downgraded when the closure is built,
+nothing upgraded inside it): whatever a delivery touches stays alive until the registry lets go of the action,
+which only the removing thread does (`C01_registry_delivery_never_releases`), and a delivery never becomes the
+last owner of anything. -/
+theorem C01_action_owns_what_it_uses :
+    SigHook.skelOf "src/iterator/backend.rs" "add_signal@wake_readers" = ["store", "wake", "register"] := by decide
 
 end SigHook.RegConc
